@@ -517,3 +517,36 @@ Proof.
   rewrite forallb_forall in H. specialize (H cs (proj2 (in_indices _ cs) H3)).
   rewrite forallb_forall in H. exact (H cc (proj2 (in_indices _ cc) H4)).
 Qed.
+
+(* ---- the choice axes as get_solve_discrete_problem determines them (Proofs/C18_AxesFilterFree.v): no reduction ------ *)
+(* without a dense discrete choice -- which gives the same array as reducing over no axes                              *)
+Lemma block_mask_no_red (k : nat) : block_mask k 0 0 = repeat false k.
+Proof. unfold block_mask. cbn [repeat]. now rewrite !app_nil_r. Qed.
+
+Lemma select_all_false {B} : forall (l : list B), select_mask (repeat false (length l)) l false = l /\ select_mask (repeat false (length l)) l true = [].
+Proof. induction l as [|x r [IH1 IH2]]; [split; reflexivity|]. cbn [length repeat select_mask Bool.eqb]. now rewrite IH1, IH2. Qed.
+
+Lemma interleave_all_false : forall keep, interleave (repeat false (length keep)) keep [] = keep.
+Proof. induction keep as [|x r IH]; [reflexivity|]. cbn [length repeat interleave hd tl]. now rewrite IH. Qed.
+
+Lemma axis_mask_nil rank : axis_mask rank [] = repeat false rank.
+Proof. unfold axis_mask. rewrite <- (seq_length rank 0) at 2. apply map_const_repeat. intros; reflexivity. Qed.
+
+Lemma amax_no_axes (cc : arr val) : wf cc -> solve_discrete_problem_no_shocks cc (Some []) None tt = cc.
+Proof.
+  intros W. unfold solve_discrete_problem_no_shocks, amax_axes, reduce_axes. rewrite axis_mask_nil.
+  destruct (select_all_false (shape cc)) as [E1 E2]. rewrite E1, E2. cbn [indices map fold_right].
+  transitivity (tabulate (shape cc) (get VUndef cc)); [|symmetry; exact (arr_is_tabulate VUndef cc W)].
+  unfold tabulate. f_equal. apply map_ext_in. intros keep Hk. apply in_indices in Hk.
+  rewrite <- (in_bounds_length _ _ Hk), interleave_all_false. destruct (get VUndef cc keep); reflexivity.
+Qed.
+
+Definition dense_choice_axes (dst dch : list (string * grid)) : option (list nat) :=
+  match dch with [] => None | _ => Some (seq (length dst) (length dch)) end.
+
+Lemma V_array_with_the_codes_axes dst dch cst cch uf :
+  solve_discrete_problem_no_shocks (cc_array dst dch cst cch uf) (dense_choice_axes dst dch) None tt = V_array dst dch cst cch uf.
+Proof.
+  unfold V_array. destruct dch as [|d r]; [|reflexivity]. cbn [dense_choice_axes length seq].
+  rewrite amax_no_axes; [reflexivity|]. apply cc_shape.
+Qed.
